@@ -356,9 +356,23 @@ func runProperty(id, tier, repo, verif string, verbose bool) int {
 		}
 		// CHA cross-check of call-graph based rules
 		only := map[string]bool{}
+		needVTA := false
 		for _, n := range rulesFor(ps, tier) {
 			if ruleUsesCallGraph[n] {
+				if _, imprecise := chaIncomparable[n]; imprecise {
+					needVTA = true
+					continue
+				}
 				only[n] = true
+			}
+		}
+		if needVTA {
+			// rules for which CHA is too coarse to compare verdicts (see chaIncomparable):
+			// instead check that VTA loses no dynamic call site that CHA resolves
+			if lost, n := p.vtaLostSites(); len(lost) > 0 {
+				addExtra("CHECKER", "vta-resolves-every-site", Undecided, "dynamic call sites in functions reachable from main for which the VTA call graph has no callee although CHA has first-party ones: "+strings.Join(lost, "; "))
+			} else {
+				addExtra("CHECKER", "vta-resolves-every-site", Holds, fmt.Sprintf("%d dynamic call sites in functions reachable from main: VTA resolves each to at least one callee", n))
 			}
 		}
 		if len(only) > 0 {
